@@ -165,20 +165,30 @@ Qed.
 (* rho and initial_infecteds *)
 Theorem dsir_both_rejected : forall g R trec ord i0 r0o rho tmin tmax full fuel,
   discrete_SIR g R trec ord (Some i0) r0o (Some rho) tmin tmax full fuel = Fail EoNError.
+Proof. intros. unfold discrete_SIR. destruct r0o; reflexivity. Qed.
+
+(* rho together with initial_recovereds is rejected too (whatever initial_infecteds is) *)
+Theorem dsir_rho_r0_rejected : forall g R trec ord i0o r0 rho tmin tmax full fuel,
+  discrete_SIR g R trec ord i0o (Some r0) (Some rho) tmin tmax full fuel = Fail EoNError.
 Proof. reflexivity. Qed.
 
 Theorem dsis_both_rejected : forall g R ord i0 rho tmin tmax full fuel,
   basic_discrete_SIS_R g R ord (Some i0) (Some rho) tmin tmax full fuel = Fail EoNError.
 Proof. reflexivity. Qed.
 
+(* a run without initial_infecteds that returns: rho and initial_recovereds were not both given
+   (that combination is rejected), and the run is the run from an explicit duplicate-free set *)
 Theorem dsir_rho : forall g R trec ord r0o rho tmin tmax full fuel out, NoDup (gnodes g) ->
   reach (discrete_SIR g R trec ord None r0o rho tmin tmax full fuel) out ->
   let n := match rho with None => 1%Z | Some r => d_round_half_even (Qnat (length (gnodes g)) * r) end in
+  (rho = None \/ r0o = None) /\
   (0 <= n)%Z /\ exists i0, NoDup i0 /\ incl i0 (gnodes g) /\ Z.of_nat (length i0) = n /\
     reach (discrete_SIR g R trec ord (Some i0) r0o None tmin tmax full fuel) out.
 Proof.
-  intros g R trec ord r0o rho tmin tmax full fuel out Hnd H. unfold discrete_SIR in H.
-  exact (with_initial_rho g rho _ out Hnd H).
+  intros g R trec ord r0o rho tmin tmax full fuel out Hnd H. unfold discrete_SIR in H. cbv zeta.
+  destruct rho as [r|]; [destruct r0o as [r0|]; [inversion H|]|].
+  - split; [right; reflexivity|]. exact (with_initial_rho g (Some r) _ out Hnd H).
+  - split; [left; reflexivity|]. destruct r0o; exact (with_initial_rho g None _ out Hnd H).
 Qed.
 
 Theorem dsis_rho : forall g R ord rho tmin tmax full fuel out, NoDup (gnodes g) ->
